@@ -108,7 +108,6 @@ theorem no_trace_partial (ctx : RCtx) (fuel : Nat) (r : Rule) (n : Tree) (env en
       · split at h
         · simp only [Except.ok.injEq, Prod.mk.injEq, true_and] at h; exact h.symm
         · split at h
-          · cases h
           · simp only [Except.ok.injEq, Prod.mk.injEq, true_and] at h; exact h.symm
           · simp at h
 
